@@ -361,3 +361,67 @@ theorem alias_share (width : Nat → Nat) (name : List Char) (wires : List Entry
   exact ⟨w, h1, this, by rw [this, track_length]; rfl⟩
 
 end C15
+
+/-! ### watched wires are identified by identity, never by name
+
+  Modelling decision, stated as a theorem: `Entry.full` / `Entry.short` (the strings `getFullPath()` / `.name`) play no
+  role in what is recorded.  Two different wires with the same name (internal wires of sibling blocks) are two
+  records; a wire, its ports and its repetitions — whatever they are called — are one. -/
+namespace C15
+open Waveform
+
+/-- the recording-relevant part of a Waveform object -/
+def core (wf : Wf) : List Nat × Dict × List Fmt := (wf.uniq, wf.data, wf.format)
+
+theorem initStep_core (width : Nat → Nat) (acc acc' : Wf) (x x' : Entry) (hc : core acc = core acc')
+    (hx : x.wire? = x'.wire?) : (initStep width acc x).map core = (initStep width acc' x').map core := by
+  simp only [core, Prod.mk.injEq] at hc
+  obtain ⟨h1, h2, h3⟩ := hc
+  unfold initStep
+  rw [hx]
+  cases x'.wire? with
+  | none => rfl
+  | some w =>
+    by_cases hm : w ∈ acc'.uniq
+    · have hm' : w ∈ acc.uniq := h1 ▸ hm
+      simp [core, hm, h1, h2, h3]
+    · have hm' : w ∉ acc.uniq := h1 ▸ hm
+      simp [core, hm, h1, h2, h3]
+
+theorem initLoop_core (width : Nat → Nat) (r : Entry → Entry) (hr : ∀ e, (r e).wire? = e.wire?)
+    (xs : List Entry) (acc acc' : Wf) (hc : core acc = core acc') :
+    (initLoop width acc (xs.map r)).map core = (initLoop width acc' xs).map core := by
+  induction xs generalizing acc acc' with
+  | nil => simp [initLoop, hc]
+  | cons x xs ih =>
+    simp only [List.map_cons, initLoop]
+    have hs := initStep_core width acc acc' (r x) x hc (hr x)
+    cases h1 : initStep width acc (r x) with
+    | none =>
+      rw [h1] at hs
+      cases h2 : initStep width acc' x with
+      | none => rfl
+      | some b => rw [h2] at hs; simp at hs
+    | some a =>
+      rw [h1] at hs
+      cases h2 : initStep width acc' x with
+      | none => rw [h2] at hs; simp at hs
+      | some b =>
+        rw [h2] at hs
+        simp only [Option.map_some, Option.some.injEq] at hs
+        exact ih a b hs
+
+/-- **init_by_identity**: renaming the watch-list entries in any way (in particular: giving two different wires the
+    same name, or one wire different names) changes neither `uniqueWires`, nor `data`, nor `format`, nor whether the
+    constructor raises.  De-duplication is by wire identity only. -/
+theorem init_by_identity (width : Nat → Nat) (name name' : List Char) (wires : List Entry)
+    (r : Entry → Entry) (hr : ∀ e, (r e).wire? = e.wire?) :
+    (init width name (wires.map r)).map core = (init width name' wires).map core := by
+  unfold init
+  simp only [List.length_map]
+  by_cases hl : wires.length > 0
+  · simp only [hl, if_true]
+    exact initLoop_core width r hr wires _ _ rfl
+  · simp [hl]
+
+end C15
